@@ -2,6 +2,7 @@ package main
 
 import (
 	"go/token"
+	"go/types"
 	"sort"
 	"strings"
 
@@ -410,7 +411,7 @@ func init() {
 			c.describe("C11.c", "flow: cluster plans return through addOrderLimitOffset with HAVING in between (see C09.c, C08.b)")
 			ruleC09c(c, "C11.c")
 			ruleC08b(c, "C11.c")
-		}, func(c *Ctx) { ruleC11d(c, "C11.d") }, func(c *Ctx) { ruleC11e(c, "C11.e") }},
+		}, func(c *Ctx) { ruleC11d(c, "C11.d") }, func(c *Ctx) { ruleC11e(c, "C11.e") }, func(c *Ctx) { ruleC09e(c, "C11.f") }, func(c *Ctx) { ruleC11g(c, "C11.g") }},
 	})
 }
 
@@ -553,4 +554,60 @@ func ruleC11e(c *Ctx, rule string) {
 	// it must apply to nested levels (not only the outermost): the walk is inside the loop over FromSubQuery levels
 	inLoop := site.Parent() == pa && len(loopsContaining(pa, site)) > 0
 	c.check(rule, "pushdownAllowed: nested IN-subqueries forbid pushdown", walk.Pos(), ok && inLoop, "a nested level whose WHERE contains a *sql.SubQuery returns false", "the nested IN-subquery test does not prevent 'return true'")
+}
+
+// ruleC11g: pushdownAllowed trusts WalkOneToOneParams to report only parameters
+// the expression is injective in. Every implementation that forwards to its
+// operands (or reports a parameter) must therefore belong to an operator that
+// really is one-to-one.
+func ruleC11g(c *Ctx, rule string) {
+	c.describe(rule, "reg: the implementations of goexpr.Expr.WalkOneToOneParams (in the module and in the goexpr dependency it is built against) that report or forward parameters belong to injective operators only — the reviewed table is {param, P(...) marker, NOT, ARRAY}; every other operator must stop the walk")
+	injective := map[string]string{
+		"github.com/getlantern/goexpr.param":     "a parameter is one-to-one in itself",
+		"github.com/getlantern/goexpr.oneToOne":  "P(...): the schema author's explicit assertion",
+		"github.com/getlantern/goexpr.notExpr":   "boolean negation is a bijection",
+		"github.com/getlantern/goexpr.ArrayExpr": "the tuple of its items determines every item",
+	}
+	n := 0
+	var names []string
+	byName := map[string]*ssa.Function{}
+	for fn := range c.P.AllFns {
+		if fn.Name() != "WalkOneToOneParams" || fn.Signature.Recv() == nil || len(fn.Blocks) == 0 || fn.Synthetic != "" {
+			continue
+		}
+		t := fn.Signature.Recv().Type()
+		if p, ok := t.(*types.Pointer); ok {
+			t = p.Elem()
+		}
+		nm := types.TypeString(t, nil)
+		if _, dup := byName[nm]; !dup {
+			byName[nm] = fn
+			names = append(names, nm)
+		}
+	}
+	sort.Strings(names)
+	for _, nm := range names {
+		fn := byName[nm]
+		n++
+		c.touch(fn)
+		forwards := false
+		for _, f := range withAnon(fn) {
+			for _, call := range calls(f) {
+				cn := calleeName(call)
+				if strings.HasSuffix(cn, ".WalkOneToOneParams") || strings.HasSuffix(cn, ".WalkParams") {
+					forwards = true
+				}
+				if len(fn.Params) > 1 && isCallOfParam(call, fn.Params[1]) {
+					forwards = true
+				}
+			}
+		}
+		if !forwards {
+			c.ok(rule, short(nm)+" stops the one-to-one walk", fn.Pos(), "reports nothing")
+			continue
+		}
+		why, ok := injective[nm]
+		c.check(rule, short(nm)+" is one-to-one in the parameters it reports", fn.Pos(), ok, why, "operator "+short(nm)+" reports its operands' parameters as one-to-one but is not in the reviewed table of injective operators: GROUP BY <this operator>(partition key) counts as grouping by the partition key, the query is pushed down whole and groups spanning partitions come back as several partial rows")
+	}
+	c.floor(rule, "WalkOneToOneParams implementations", n, 15)
 }
